@@ -157,3 +157,25 @@ def cell_simple(b: bool) -> bool:
     ok = ok and c0.value is None and c0.type is None
     cb.value = None
     return done(ok and cb.value is None)
+
+
+def meta_overwrite(first: int, a: str, b: str) -> bool:
+    """
+    pre: 0 <= first <= 3 and len(a) <= 1 and len(b) <= 1 and (KIND != "date" or ("T" not in a and "T" not in b))
+    post: _
+    """
+    # overwriting an existing user-defined entry with a value of another type: the entry then
+    # reads back as the NEW value (its value-type follows), and no second entry appears
+    v, codec = VALUES[KIND]
+    enc = _mk_enc(KIND, a, b)
+    m = Meta.__new__(Meta)
+    body = Element.from_tag("office:meta")
+    m.get_elements = lambda q: body.get_elements("meta:user-defined")
+    m.get_meta_body = lambda: body
+    ENC["s"] = "P"
+    m.set_user_defined_metadata("k", (True, 7, "txt", timedelta(seconds=1))[first])
+    ENC["s"] = enc
+    m.set_user_defined_metadata("k", v)
+    els = body.get_elements("meta:user-defined")
+    got = Meta._get_meta_value_full(els[0])
+    return done(len(els) == 1 and got[0] == (codec, enc) and got[1] == ("time" if KIND == "timedelta" else "date"))
